@@ -16,7 +16,7 @@ from fractions import Fraction as F
 
 import numpy as np
 
-from common import REPO, VERIF, coq_bool, coq_list, coq_string, frac, qc, sh
+from common import REPO, VERIF, source_pins, coq_bool, coq_list, coq_string, frac, qc, sh
 
 TRUSTED_BASE = [
     "Coq 8.16.1 kernel + coqc (vm_compute only for the finite sweep over the generated _bond_lengths table, the "
@@ -49,6 +49,20 @@ RULE = ("structures: RDKit-embedded small organics + hand templates (linear, pla
         "the cut-offs), each graph checked against the distance criterion and the model for THAT tolerance; a case is "
         "non-trivial when the structure has >= 2 atoms and (for frame cases) the transform is not the identity; "
         "distinct by (structure, transform, observable)")
+
+# Functions the hand model coq/C03/Model.v (and the harness's reference oracles that mirror implementation
+# structure) were written from and that tr/translate_c03.py does NOT already regenerate or compare
+# structurally.  (Pinned by the translator, hence not listed: Atom.maximal_valance / is_metal / atomic_number /
+# atomic_symbol / covalent_radius, Atoms.eqm_bond_distance / are_linear / are_planar / nvector / vector,
+# Species.is_linear / is_planar, the element tables; of make_graph the translator only reads the default
+# tolerance and the bond test, so the function is pinned here.)
+PINS = [("autode/mol_graphs.py", q) for q in (
+    "make_graph", "remove_bonds_invalid_valancies", "_set_graph_attributes", "reorder_nodes")] + [
+    ("autode/atoms.py", q) for q in (
+        "Atom.__init__", "Atom.coord", "Atoms.coordinates", "Atoms.idxs_are_present", "Atoms.distance",
+        "AtomCollection.n_atoms", "AtomCollection.coordinates", "AtomCollection.distance",
+        "AtomCollection.eqm_bond_distance", "AtomCollection.angle", "AtomCollection.dihedral")] + [
+    ("autode/species/species.py", q) for q in ("Species.graph", "Species.bond_matrix", "Species.reorder_atoms")]
 
 SLICE = ["lib/QcInst.v", "C03/Vec.v", "C03/Model.v", "C03/Lemmas.v", "C03/Props.v", "C03/Corr.v", "gen/C03_Gen.v"]
 PRE = ("From Coq Require Import ZArith QArith Qcanon List String Bool.\nFrom AV.lib Require Import QcInst.\n"
@@ -816,7 +830,7 @@ def table_terms(ctx, terms, descr):
                 {"kind": "element", "symbol": sym}, ("elem", sym))
     pool = ["H", "He", "Li", "B", "C", "N", "O", "F", "Al", "Si", "P", "S", "Cl", "Fe", "Br", "Rh", "I", "Xe", "Pt", "Rn"]
     if ctx.quick:
-        pool = ["H", "Li", "C", "N", "O", "F", "Al", "S", "Cl", "Fe", "I", "Rn"]
+        pool = ["H", "Li", "C", "O", "F", "Al", "Cl", "Fe", "I", "Rn"]
     for a in pool:
         for b in pool:
             ats = A.Atoms([A.Atom(a), A.Atom(b)])
@@ -840,7 +854,9 @@ def model_terms(ctx, structs, frs, consts, terms, descr, rng, nmax):
         if g.n > nmax:
             continue
         variants = [(g, "id", True)]
-        if g.n >= 2 and frs:
+        nstruct = getattr(model_terms, "_k", 0) + 1
+        model_terms._k = nstruct
+        if g.n >= 2 and frs and (not ctx.quick or g.kind not in ("rdkit", "jitter", "cluster") or nstruct % 3 == 0):
             tag, R, t, det = frs[rng.randrange(len(frs))]
             variants.append((g.moved(R, t, tag), tag, False))
             mir = [f for f in frs if f[3] < 0]
@@ -858,8 +874,9 @@ def model_terms(ctx, structs, frs, consts, terms, descr, rng, nmax):
                 r, ru = impl_graph(h), impl_graph(h, allow=True)
                 add("graph", f"check_graph {rel} {el} {ps} {coq_gres(r)}", dict(d, kind="graph", impl=r[1] if r[0] == "ok" else r[0]),
                     (h.name, "graph"), nontrivial=h.n >= 2)
-                add("graph", f"check_unpruned {rel} {el} {ps} {coq_gres(ru)}", dict(d, kind="unpruned", impl=ru[1] if ru[0] == "ok" else ru[0]),
-                    (h.name, "unpruned"), nontrivial=h.n >= 2)
+                if not ctx.quick or ex.overcoordinated or ru != r[:2] + ru[2:] or nstruct % 4 == 0:
+                    add("graph", f"check_unpruned {rel} {el} {ps} {coq_gres(ru)}", dict(d, kind="unpruned", impl=ru[1] if ru[0] == "ok" else ru[0]),
+                        (h.name, "unpruned"), nontrivial=h.n >= 2)
                 if dyadic and r[0] == "ok" and not ex.radius_error and not ex.row_tie:
                     adj = coq_list([coq_list([f"{k}%nat" for k in row]) for row in r[2]])
                     add("adjacency-order", f"check_adjacency {rel} {el} {ps} {adj}", dict(d, kind="adjacency", impl=r[2]),
@@ -936,8 +953,8 @@ def record_terms(ctx, orc, terms, descr, nmax, limit):
 def build_structures(ctx):
     full = not ctx.quick
     T = hand_templates()
-    Rk = rdkit_structures(ctx.rng, len(SMILES) if full else 20)
-    J = jittered(ctx.rng, T + Rk, 120 if full else 16) + crowded_clusters(ctx.rng, 80 if full else 16)
+    Rk = rdkit_structures(ctx.rng, len(SMILES) if full else 16)
+    J = jittered(ctx.rng, T + Rk, 120 if full else 10) + crowded_clusters(ctx.rng, 80 if full else 12)
     return T, Rk, J
 
 
@@ -960,7 +977,7 @@ def run_oracles(ctx, structs, consts):
         base_vals = orc.geom_values(g, idx)
         frs = frames(rng, 3 if full else 1, 3 if full else 1)
         for k, fr in enumerate(frs):
-            orc.frame(g, ex, base, fr, do_sn and (full or k >= 1), idx, base_vals)
+            orc.frame(g, ex, base, fr, do_sn and (full or k == 1 + len(g.name) % 2), idx, base_vals)
         if g.n >= 2:
             for _ in range(3 if full else (2 if g.kind not in ("rdkit", "jitter") else 1)):
                 sigma = list(range(g.n))
@@ -970,9 +987,10 @@ def run_oracles(ctx, structs, consts):
                 # bring the last atoms to the front (changes which atoms define the line / plane)
                 orc.permutation(g, ex, base, [(i + 2) % g.n for i in range(g.n)], False)
             if g.kind != "jitter" or full:
-                for sigma in reorder_sigmas(rng, g.n, full):
-                    orc.reorder_api(g, ex, base, sigma, do_sn and g.kind != "rdkit" and g.n <= 6)
-                orc.tolerance_sequence(g, TOL_SEQUENCE)
+                for k, sigma in enumerate(reorder_sigmas(rng, g.n, full)):
+                    orc.reorder_api(g, ex, base, sigma, do_sn and g.kind != "rdkit" and g.n <= 6 and (full or k in (1, 4)))
+                if full or (g.n <= 6 and g.kind not in ("rdkit", "cluster")):
+                    orc.tolerance_sequence(g, TOL_SEQUENCE)
                 for _ in range(2 if full else 1):
                     orc.tolerance_sequence(stretched(rng, g), TOL_SEQUENCE)
     return orc
@@ -991,6 +1009,10 @@ def run(ctx):
     sys.path.insert(0, REPO)
     no_fork_timeouts()
     full = not ctx.quick
+    pins_changed = source_pins(ctx.pid, PINS)
+    ctx.cov["source_pins"] = {"pinned": len(PINS), "changed": pins_changed}
+    if pins_changed:
+        ctx.log("source pins changed:", ", ".join(pins_changed))
     # 1. regenerate the tables / tests from the source
     rc, out = sh(["python3", f"{VERIF}/tr/translate_c03.py"], timeout=120)
     ctx.log("translator:", out.strip()[:400])
@@ -1020,7 +1042,7 @@ def run(ctx):
         table_terms(ctx, terms, descr)
         frs = frames(ctx.rng, 2, 2)[1:]
         model_terms(ctx, T + Rk + J, frs, consts, terms, descr, ctx.rng, 18 if full else 10)
-        record_terms(ctx, orc, terms, descr, 18 if full else 10, 400 if full else 90)
+        record_terms(ctx, orc, terms, descr, 18 if full else 10, 400 if full else 70)
         bad, corr_err = ctx.coq_bad_indices(PRE, terms, per_file=120, name="c03cases")
         corr_bad = [(descr[i], terms[i]) for i in bad]
         ctx.log(f"correspondence: {len(terms)} cases, {len(corr_bad)} disagreements" + (f"; coq error {corr_err[:300]}" if corr_err else ""))
@@ -1037,6 +1059,9 @@ def run(ctx):
         else:
             ctx.log("correspondence disagreements explained by the implementation-level findings above: " +
                     "; ".join(f"{d.get('kind')}@{d['structure']['name']}" for d, _ in corr_bad[:6] if 'structure' in d))
+    if pins_changed and not unknown and not (corr_bad or corr_err) and proofs_ok:
+        ctx.violation("hand model no longer pinned to the source: " + ", ".join(pins_changed),
+                      {"kind": "source-pin", "changed": pins_changed}, found_input=False)
 
 
 def replay(ctx, obj):
